@@ -222,7 +222,7 @@ def runGemv (alpha beta : α) (bias : Bias α) (A B : Nat → Nat → α) (C : O
 /-! ## `gemm_impl` -/
 
 inductive GemmErr where
-  | kSizeMismatch | wrongBiasSize | outputSizeMismatch
+  | kSizeMismatch | wrongBiasSize | wrongQuantParamSize | outputSizeMismatch
   | packedDataKernelMismatch | packedDataBlockingMismatch
 deriving Repr, DecidableEq
 
@@ -260,7 +260,9 @@ inductive Path where
   | gemm (mc nc kc : Nat) (calls : List Call)
 
 /-- Shape-level inputs of `gemm_impl`. `aPacked` / `bPacked`: `some meta` for prepacked inputs;
-`bOther`: B is neither `Unpacked` nor `Packed` (im2col). -/
+`bOther`: B is neither `Unpacked` nor `Packed` (im2col).  `GemmInputB::BlockQuantized` is not
+modelled here (it changes `depth_min`; property C37); `BlockQuantizedInputNotSupported` cannot
+arise for f32 because every f32 kernel implements `pack_block_quant`. -/
 structure Problem where
   M : Nat
   Ka : Nat
@@ -271,13 +273,18 @@ structure Problem where
   rowBiasLen : Option Nat
   /-- `some len` for a column bias -/
   colBiasLen : Option Nat
+  /-- `a_quant.zero_point.len()` if quantization parameters are passed for A (the f32 kernels
+  ignore their contents, but `gemm_impl` checks the length for every element type) -/
+  aQuantLen : Option Nat
+  /-- `b_quant.zero_point.len()` -/
+  bQuantLen : Option Nat
   aPacked : Option PackedMeta
   bPacked : Option PackedMeta
   bOther : Bool
   bRowStride1 : Bool
   threads : Nat
 
-/-- `bias.len() == b.cols()` / `== a.rows()` check, negated. -/
+/-- `bias.len() == b.cols()` / `== a.rows()` check (also used for the zero-point lengths), negated. -/
 def biasLenBad (len : Option Nat) (n : Nat) : Bool :=
   match len with
   | some l => l != n
@@ -288,6 +295,8 @@ def gemmPath (k : BlockConsts) (kern : KernelCfg) (p : Problem) : Except GemmErr
   if p.Ka ≠ p.Kb then .error .kSizeMismatch
   else if biasLenBad p.rowBiasLen p.N then .error .wrongBiasSize
   else if biasLenBad p.colBiasLen p.M then .error .wrongBiasSize
+  else if biasLenBad p.aQuantLen p.M then .error .wrongQuantParamSize
+  else if biasLenBad p.bQuantLen p.N then .error .wrongQuantParamSize
   else if p.outLen ≠ p.M * p.N then .error .outputSizeMismatch
   else if p.M = 0 ∨ p.N = 0 then .ok .none
   else if p.Ka = 0 then .ok .none
@@ -341,5 +350,35 @@ def packBSlots (nr rows cols : Nat) : List (Option (Nat × Nat)) :=
     (List.range rows).flatMap fun row =>
       (List.range nr).map fun j =>
         if panel * nr + j < cols then some (row, panel * nr + j) else none
+
+/-! ## A micro-kernel specification that reads the packed panels
+
+`simd_gemm` (used by every f32 kernel) reads element `(x, k)` of the A panel at
+`x * depth + k` (`a_ptr.add(i * a_row_stride + k)`, `a_row_stride = depth` for packed input) and
+element `(k, y)` of the B panel at `k * NR + y`; `gemm_block` hands it panel `i` / `jt` of the
+block at `i * panel_stride`. -/
+
+section PanelKernel
+variable {α : Type} [Add α] [Mul α] [Zero α]
+
+/-- Values stored by `pack_a_block` for the block `rows [rs, re) × depth [ds, de)` of `A`. -/
+def packAVals (A : Nat → Nat → α) (mr rs re ds de : Nat) : List α :=
+  (packASlots mr (re - rs) (de - ds)).map fun
+    | some (r, c) => A (rs + r) (ds + c)
+    | none => 0
+
+/-- Values stored by `pack_b_block` for the block `depth [ds, de) × cols [cs, ce)` of `B`. -/
+def packBVals (B : Nat → Nat → α) (nr ds de cs ce : Nat) : List α :=
+  (packBSlots nr (de - ds) (ce - cs)).map fun
+    | some (k, c) => B (ds + k) (cs + c)
+    | none => 0
+
+/-- The dot product a panel-reading kernel accumulates for element `(x, y)` of the tile whose
+operands are panel `i` of the packed A block and panel `jt` of the packed B block. -/
+def panelDot (pa pb : List α) (mr nr depth i jt x y : Nat) : α :=
+  sumFrom (fun k => pa.getD (i * (mr * depth) + (x * depth + k)) 0 *
+                    pb.getD (jt * (depth * nr) + (k * nr + y)) 0) 0 depth
+
+end PanelKernel
 
 end RtenVerif.Gemm
